@@ -67,7 +67,24 @@ func (e *rpcEnv) runWs(ev *RpcEv) {
 	}
 	if co.HTTP == 101 {
 		for _, m := range e.sent {
-			if _, err := conn.Write(wsFrame(1, true, true, 0, marshalMsg("json", m))); err != nil {
+			p := marshalMsg("json", m)
+			var wire []byte
+			if c.WsFrag > 0 && len(p) > c.WsFrag { // one message as a run of continuation frames
+				for off, first := 0, true; off < len(p); off += c.WsFrag {
+					end := off + c.WsFrag
+					if end > len(p) {
+						end = len(p)
+					}
+					op := byte(0)
+					if first {
+						op, first = 1, false
+					}
+					wire = append(wire, wsFrame(op, end == len(p), true, 0, p[off:end])...)
+				}
+			} else {
+				wire = wsFrame(1, true, true, 0, p)
+			}
+			if _, err := conn.Write(wire); err != nil {
 				break
 			}
 		}
